@@ -148,18 +148,27 @@ def gen_m1(rnd, tier):
     nrand = {'quick': 1500, 'thorough': 12000, 'search': 4000}.get(tier, 1500)
     for i in range(nrand):
         ops = []
+        floor = 0        # after PurgeSegments(t) time only moves forward: later calls do not begin before t
         for j in range(rnd.randint(3, 6)):
             r = rnd.random()
             if r < 0.08:
-                ops.append('tp_purge name=a t=%d' % rnd.choice(GRID + [GRID[0] - 50, GRID[-1] + 50]))
+                t = rnd.choice([g for g in GRID + [GRID[0] - 50, GRID[-1] + 50] if g >= floor])
+                floor = t
+                ops.append('tp_purge name=a t=%d' % t)
             elif r < 0.16:
-                b, e = rnd.choice(GRID), rnd.choice(GRID)    # possibly degenerate
+                cand = [g for g in GRID if g >= floor]
+                if not cand:
+                    break
+                b, e = rnd.choice(cand), rnd.choice(GRID)    # possibly degenerate
                 ops.append(seg_op(rnd.choice(('add', 'rm')), b, e))
             elif r < 0.2:
                 ops.append('now %d' % rnd.choice(pts_for(GRID)))
                 ops.append('tp_now name=a')
             else:
-                ops.append(seg_op(*rnd.choice(allops)))
+                cand = [o for o in allops if o[1] >= floor]
+                if not cand:
+                    break
+                ops.append(seg_op(*rnd.choice(cand)))
         cases.append(m1_case(ops, 'm1-random'))
     # UpdateRegion with includes / excludes / prefer_includes
     nupd = {'quick': 1500, 'thorough': 10000, 'search': 4000}.get(tier, 1500)
@@ -167,10 +176,13 @@ def gen_m1(rnd, tier):
         names = ['a', 'b', 'c', 'd'][:rnd.randint(2, 4)]
         lines = ['now %d' % T0, 'tp_pts ' + ','.join(str(p) for p in pts_for(GRID + [GRID[0] - 100, GRID[-1] + 100]))]
         # dependency order: a period may reference only later names; later names are updated first
+        leaf = set()
         for k, n in enumerate(names):
             later = names[k + 1:]
             inc = [x for x in later if rnd.random() < 0.45]
             exc = [x for x in later if x not in inc and rnd.random() < 0.6]
+            if not inc and not exc:
+                leaf.add(n)
             if rnd.random() < 0.05:
                 exc.append('ghost')                         # a name that does not exist is skipped
             lines.append('tp_new name=%s prefer=%d inc=%s exc=%s' % (n, rnd.randint(0, 1), ','.join(inc) or '-', ','.join(exc) or '-'))
@@ -185,13 +197,16 @@ def gen_m1(rnd, tier):
             lines.append('tp_upd name=%s b=%d e=%d clear=1' % (n, wb, we))
         if mode == 'two-step':
             # new own segments, then the timer path: purge + UpdateRegion(valid_end, later, false)
-            for n in names:
-                if rnd.random() < 0.5:
-                    segs = [rnd.choice(ivs) for _ in range(rnd.choice((1, 2)))]
-                    lines.append('tp_own name=%s segs=%s' % (n, ','.join('%d-%d' % s for s in segs)))
+            # time only moves forward: after PurgeSegments(t) the update function returns nothing that begins before t;
+            # periods with includes/excludes are not purged here (Merge re-adds the referenced periods' old segments,
+            # which moves valid_begin back before t and exposes whatever representation survived the purge)
             for n in reversed(names):
-                if rnd.random() < 0.5:
-                    lines.append('tp_purge name=%s t=%d' % (n, rnd.choice(GRID)))
+                t = rnd.choice(GRID) if (n in leaf and rnd.random() < 0.7) else None
+                cand = [iv for iv in ivs if t is None or iv[0] >= t]
+                segs = [rnd.choice(cand) for _ in range(rnd.choice((0, 1, 2)))] if cand else []
+                lines.append('tp_own name=%s segs=%s' % (n, ','.join('%d-%d' % s for s in segs) or '-'))
+                if t is not None:
+                    lines.append('tp_purge name=%s t=%d' % (n, t))
                 lines.append('tp_upd name=%s b=%d e=%d clear=0' % (n, rnd.choice(GRID), rnd.choice(GRID + [we, we + 100])))
         lines.append('now %d' % rnd.choice(pts_for(GRID)))
         lines.append('tp_now name=a')
@@ -573,6 +588,47 @@ def classify(case, detail, impl_lines):
     if 'violates-C08 update-region' in detail:
         return 'update-region'
     return 'interval-algebra'
+
+
+def _canon_segs(field, vb, ve):
+    """segments as a set of instants inside the valid window: drop empty ones, clip to [valid_begin, valid_end]
+    (IsInside ignores the segments outside it), sort, merge overlapping/adjacent.  The array representation
+    (order, merged or not, remains before valid_begin after a purge) is not part of the property; the IsInside
+    bits and the window are."""
+    if field == '-':
+        return '-'
+    segs = []
+    for sg in field.split(','):
+        i = sg.index('-', 1)
+        b, e = int(sg[:i]), int(sg[i + 1:])
+        if vb is not None:
+            b = max(b, vb)
+        if ve is not None:
+            e = min(e, ve + 1)
+        if b < e:
+            segs.append((b, e))
+    segs.sort()
+    out = []
+    for b, e in segs:
+        if out and b <= out[-1][1]:
+            out[-1] = (out[-1][0], max(out[-1][1], e))
+        else:
+            out.append((b, e))
+    return ','.join('%d-%d' % x for x in out) or '-'
+
+
+def canon(lines):
+    res = []
+    for l in lines:
+        if l.startswith('tp ') and ' segs=' in l:
+            pre, rest = l.split(' segs=', 1)
+            f, tail = rest.split(' ', 1)
+            kv = dict(x.split('=', 1) for x in tail.split(' ') if '=' in x)
+            vb = int(kv['vb']) if kv.get('vb', '-') != '-' else None
+            ve = int(kv['ve']) if kv.get('ve', '-') != '-' else None
+            l = '%s segs=%s %s' % (pre, _canon_segs(f, vb, ve), tail)
+        res.append(l)
+    return res
 
 
 def keep_line(l):
